@@ -377,7 +377,10 @@ class C13Exec(execs.PyExec):
         # sparse x sparse
         s2 = hg.SparselyBin(0.5, qx, hg.SparselyBin(0.5, qy, hg.Count()))
         fin = [(d, w) for d, w in data if all(isinstance(v, float) and math.isfinite(v) for v in d[:2])]
-        for d, w in fin:
+        # rows with a finite x and a NaN y are filled too: they go to the nanflow of their x slice, which no y bin, no grid
+        # cell and no projection counts
+        nany = [(d, w) for d, w in data if isinstance(d[0], float) and math.isfinite(d[0]) and isinstance(d[1], float) and math.isnan(d[1])]
+        for d, w in fin + (nany if fin else []):
             s2.fill(d, w)
         if fin:
             xr, yr, g = s2.xy_ranges_grid()
